@@ -103,11 +103,23 @@ def rule_r1_r3(chk):
     # _expand_pseudofunction: table lookup by group(1), default shift
     f = m.func("_expand_pseudofunction")
     chk.saw(m, "_expand_pseudofunction")
-    src = unparse(f).replace(" ", "")
-    ok = ("func,default_shift=_PSEUDOFUNC_RESOLUTION[func_name]" in src and "shift=_resolve_shift(shift,default_shift)" in src
-          and "returnfunc(expression,shift)" in src and "match.group(1),match.group(2),match.group(3)" in src)
-    chk.ob("C04-R3", "parsers._pseudofunctions._expand_pseudofunction", ok,
-           "builder and default shift come from the same table entry; builder called with (expression, shift)", m.loc(f))
+    from .. import fin as _fin
+    bad, n_ev = None, 0
+    try:
+        for groups, want in ((("diff", "x", None), ("B-diff", "x", -1)), (("movsum", "x+y", " -2 "), ("B-movsum", "x+y", -2)),
+                             (("movsum", "z", ""), ("B-movsum", "z", -4)), (("diff", "a*b", "+3"), ("B-diff", "a*b", 3))):
+            table = {"diff": (lambda e, s_: ("B-diff", e, s_), -1), "movsum": (lambda e, s_: ("B-movsum", e, s_), -4)}
+            match = _fin.FinObj(group=lambda *i, _g=groups: _g[i[0] - 1] if len(i) == 1 else tuple(_g[k - 1] for k in i), groups=lambda _g=groups: tuple(_g))
+            got = _fin.run_function(f, {params(f)[0]: match}, _fin.module_funcs(m), {"_PSEUDOFUNC_RESOLUTION": table})
+            n_ev += 1
+            if got != want:
+                bad = f"match groups {groups}: the builder call is {got}, expected {want} (builder and default shift of the same table entry)"
+                break
+    except (_fin.NotFinite, _fin.Raised, TypeError, KeyError, ValueError) as ex:
+        chk.undecided("C04-R3", "parsers._pseudofunctions._expand_pseudofunction", f"not finitely evaluable: {type(ex).__name__}: {ex}", m.loc(f))
+    else:
+        chk.ob("C04-R3", "parsers._pseudofunctions._expand_pseudofunction", bad is None,
+               bad or f"builder and default shift come from the same table entry; builder called with (expression, shift) on {n_ev} matches", m.loc(f), sure=True)
     g = m.func("_resolve_shift")
     chk.saw(m, "_resolve_shift")
     oks = []
